@@ -194,6 +194,12 @@ func (p *Parser) parseFunction(ident token.Token) (ast.Function, error) {
 // parseAssign parses a global variable assignment into an assign ast node.
 // the ':=' is known to exist but has yet to be consumed, the encountered ident token is passed in.
 func (p *Parser) parseAssign(ident token.Token) (ast.Assign, error) {
+	if ident.Value == token.TASK.String() {
+		// A variable called 'task' could only ever be declared in the middle of a line, at the
+		// start of one (which is where the formatter puts it) it is the keyword
+		keyword := token.Token{Value: ident.Value, Type: token.TASK, Pos: ident.Pos, Line: ident.Line}
+		return ast.Assign{}, illegalToken{expected: []token.Type{token.IDENT}, encountered: keyword, line: p.getLine(ident)}
+	}
 	name := p.parseIdent(ident)
 
 	// If next is not ':=', we have a problem
